@@ -178,3 +178,55 @@ func drawExtraKeys(t *rapid.T, c *cfggen.Config) {
 		ev.Class("config-key-beyond-the-known-schema:" + d.Kind + "." + d.Key)
 	}
 }
+
+// Words the tree under test has beyond the unchanged tree: short string literals (names, keywords) found in
+// the non-test sources of the tree the harness was built against that are not in testdata/known_literals.txt
+// (the literals of the unchanged tree).  A change that gives a particular name or value a meaning ("DEFAULT",
+// "any", "none") brings its own dictionary entry.  Checks use the words as user names next to their own
+// pools.  On the unchanged tree there are none.
+var (
+	wordsOnce       sync.Once
+	discoveredWords []string
+)
+
+func newWords() []string {
+	wordsOnce.Do(func() {
+		known := map[string]bool{}
+		if b, err := os.ReadFile(filepath.Join("testdata", "known_literals.txt")); err == nil {
+			for _, l := range strings.Split(string(b), "\n") {
+				known[l] = true
+			}
+		} else {
+			return // without the baseline nothing can be told apart
+		}
+		re := regexp.MustCompile(`"([A-Za-z0-9_.$~ -]{1,24})"`)
+		seen := map[string]bool{}
+		_ = filepath.Walk(repoDir(), func(path string, info os.FileInfo, err error) error {
+			if err != nil {
+				return nil
+			}
+			if info.IsDir() {
+				if n := info.Name(); n == ".git" || n == "SEED" {
+					return filepath.SkipDir
+				}
+				return nil
+			}
+			if !strings.HasSuffix(path, ".go") || strings.HasSuffix(path, "_test.go") {
+				return nil
+			}
+			src, err := os.ReadFile(path)
+			if err != nil {
+				return nil
+			}
+			for _, m := range re.FindAllSubmatch(src, -1) {
+				w := string(m[1])
+				if !known[w] && !seen[w] && strings.TrimSpace(w) != "" && len(discoveredWords) < 12 {
+					seen[w] = true
+					discoveredWords = append(discoveredWords, w)
+				}
+			}
+			return nil
+		})
+	})
+	return discoveredWords
+}
